@@ -48,6 +48,8 @@ type Prover struct {
 	// atBlock: the block of the instruction the current facts are collected for (phis of dispatch
 	// blocks are read as the value they have there)
 	atBlock *ssa.BasicBlock
+	// AssumeFits: integer conversions taken as value preserving on a stated assumption of the rule (may be nil)
+	AssumeFits func(c *ssa.Convert) bool
 }
 
 // phiHere resolves a dispatch-block phi to the value it has at the current proof site.
@@ -456,6 +458,10 @@ func (pr *Prover) defFacts(fs *factSet, v ssa.Value, depth int) {
 				}
 			}
 			fs.narrow = append(fs.narrow, narrowing{self, pr.lin(x.X), x})
+			if pr.AssumeFits != nil && pr.AssumeFits(x) {
+				fs.le(self, pr.lin(x.X), 0, "assumed to fit")
+				fs.le(pr.lin(x.X), self, 0, "assumed to fit")
+			}
 		}
 	case *ssa.ChangeType:
 		pr.defFacts(fs, x.X, depth+1)
@@ -1055,6 +1061,43 @@ func (pr *Prover) Prove(at ssa.Instruction, g Goal) ProofResult {
 					all = false
 					break
 				}
+			}
+			if r := pr.prove1(pred.Instrs[len(pred.Instrs)-1], sub); !r.OK {
+				all = false
+				break
+			}
+		}
+		if all {
+			res.OK = true
+			res.Facts = append(res.Facts, "proved for every incoming value of the merged slice")
+			return res
+		}
+	}
+	// the same when the length of a merged slice is on the left-hand side (len(phi) + k <= c)
+	var x lin
+	if g.XL != nil {
+		x = *g.XL
+	} else if g.X != nil {
+		x = pr.lin(g.X)
+	} else {
+		return res
+	}
+	for _, ex := range g.extra {
+		ph, ok := ex.(*ssa.Phi)
+		if !ok || !instrDominates(ph, at) && ph.Block() != at.Block() {
+			continue
+		}
+		if pr.linLen(ph, "len").T != x.T {
+			continue
+		}
+		all := len(ph.Edges) > 0
+		for i, e := range ph.Edges {
+			pred := ph.Block().Preds[i]
+			l := pr.linLen(e, "len")
+			l.Off += x.Off
+			sub := Goal{XL: &l, Y: g.Y, YL: g.YL, C: g.C, extra: []ssa.Value{e}}
+			if iff, isIf := pred.Instrs[len(pred.Instrs)-1].(*ssa.If); isIf && pred.Succs[0] != pred.Succs[1] {
+				sub.edgeCond, sub.edgePol = iff.Cond, pred.Succs[0] == ph.Block()
 			}
 			if r := pr.prove1(pred.Instrs[len(pred.Instrs)-1], sub); !r.OK {
 				all = false
